@@ -42,21 +42,26 @@ def _fixed(gen, **consts):
 
 
 # read(n) == first n bytes of T_1 || T_2 || ..., T_i = U_1 ^ ... ^ U_c   (C14.3)
-# (c >= 2: every XOR-ed byte costs a range query over Int2BV/BV2Int terms; with a 2 s solver timeout and all cores
-#  busy some of them came back `unknown`, which keeps an infeasible raising branch alive -> 10 s)
-for _c, _n, _tiers in ((1, 64, ("quick", "thorough")), (1, 130, ("quick", "thorough")), (2, 64, ("thorough",))):
+# c >= 2: every XOR-ed byte costs a range query `0 <= BV2Int(Int2BV(a) ^ Int2BV(b)) <= 255`.  Run alone
+# (`python3-vt -m verif.one 'sha1_read#c2n20' 2000`) all obligations are ok (SHA-1 c=2: 27 s, SHA-1 c=3: 218 s,
+# SHA-512 c=2: 260 s).  With all cores busy (load average 30) some of these queries come back `unknown`, which keeps
+# an infeasible raising branch alive and shows up as a spurious failing obligation without model; a longer solver
+# timeout (10 s) made that worse (20 min, more unknowns).  Verdicts must not flip with machine load, therefore:
+# c=2 SHA-1 only in the thorough tier, the two slower instances not scheduled at all (NO_SYMBOLIC); all three still
+# run concretely.
+for _c, _n, _tiers in ((1, 64, ("quick", "thorough")), (1, 130, ("quick", "thorough")), (2, 64, NO_SYMBOLIC)):
     contract("verif.harness.mnemonic.pbkdf2_sha512_read#c%dn%d" % (_c, _n), props=("C14",),
              params={"passphrase": PW, "salt": "bytes", "iterations": ("const", _c), "n": ("const", _n)},
              ensures=["returns()", "len(result) == n",
                       "result == spec.mnemonic.pbkdf2_sha512(passphrase, salt, iterations, n)"],
-             tiers=_tiers, timeout_ms=(3000 if _c == 1 else 10000),
+             tiers=_tiers, timeout_ms=3000,
              gen=_fixed(_gen_pbkdf2((_c,), (_n,), 128), iterations=_c, n=_n))
-for _c, _n, _tiers in ((1, 50, ("quick", "thorough")), (2, 20, ("quick", "thorough")), (3, 20, ("thorough",))):
+for _c, _n, _tiers in ((1, 50, ("quick", "thorough")), (2, 20, ("thorough",)), (3, 20, NO_SYMBOLIC)):
     contract("verif.harness.mnemonic.pbkdf2_sha1_read#c%dn%d" % (_c, _n), props=("C14",),
              params={"passphrase": PW, "salt": "bytes", "iterations": ("const", _c), "n": ("const", _n)},
              ensures=["returns()", "len(result) == n",
                       "result == spec.mnemonic.pbkdf2_sha1(passphrase, salt, iterations, n)"],
-             tiers=_tiers, timeout_ms=(3000 if _c == 1 else 10000),
+             tiers=_tiers, timeout_ms=3000,
              gen=_fixed(_gen_pbkdf2((_c,), (_n,), 64), iterations=_c, n=_n))
 
 # two consecutive reads continue the stream (buffer + block counter state of read)
